@@ -19,6 +19,7 @@ import (
 
 	"example.com/scion-time/core/client"
 	scsync "example.com/scion-time/core/sync"
+	"example.com/scion-time/driver/clocks"
 
 	"verif/harness/internal/ev"
 )
@@ -50,6 +51,9 @@ type c01Scenario struct {
 	Refs       [][]c01Behave `json:"ref_clocks"` // [clock][round]
 	Peers      [][]c01Behave `json:"peers"`
 	Bad        string        `json:"inadmissible,omitempty"`
+	// > 0: the clock's drift allowance is the real clocks.SystemClock's, configured with this
+	// drift per second; DriftOfI is then the independently computed drift x interval
+	DriftPerSec int64 `json:"system_clock_drift_ns_per_s,omitempty"`
 }
 
 type c01Event struct {
@@ -59,6 +63,7 @@ type c01Event struct {
 }
 
 type c01Clock struct {
+	real   *clocks.SystemClock
 	sc     *c01Scenario
 	mu     *sync.Mutex
 	events *[]c01Event
@@ -66,11 +71,21 @@ type c01Clock struct {
 	sleeps int
 }
 
-func (c *c01Clock) Epoch() uint64                                      { return 0 }
-func (c *c01Clock) Now() time.Time                                     { return time.Now() }
-func (c *c01Clock) Step(offset time.Duration)                          {}
-func (c *c01Clock) Adjust(offset, duration time.Duration, f float64)   {}
+func (c *c01Clock) Epoch() uint64                                    { return 0 }
+func (c *c01Clock) Now() time.Time                                   { return time.Now() }
+func (c *c01Clock) Step(offset time.Duration)                        {}
+func (c *c01Clock) Adjust(offset, duration time.Duration, f float64) {}
 func (c *c01Clock) Drift(d time.Duration) time.Duration {
+	if c.real != nil && int64(d) == c.sc.Interval {
+		got := int64(c.real.Drift(d))
+		c.mu.Lock()
+		*c.events = append(*c.events, c01Event{"drift", int64(time.Since(c.start)), got})
+		c.mu.Unlock()
+		if diff := got - c.sc.DriftOfI; diff > 1 || diff < -1 {
+			return time.Duration(got) // judged as a violation; the round structure is not
+		}
+		return time.Duration(c.sc.DriftOfI)
+	}
 	if int64(d) == c.sc.Interval {
 		return time.Duration(c.sc.DriftOfI)
 	}
@@ -156,6 +171,9 @@ func c01RunOne(sc *c01Scenario) (events []c01Event, panicked string, bubble stri
 	synctest.Run(func() {
 		start := time.Now()
 		clk := &c01Clock{sc: sc, mu: &mu, events: &evs, start: start}
+		if sc.DriftPerSec > 0 {
+			clk.real = clocks.NewSystemClock(slog.New(slog.DiscardHandler), time.Duration(sc.DriftPerSec))
+		}
 		adj := &c01Adj{mu: &mu, events: &evs, start: start}
 		mk := func(scripts [][]c01Behave) []client.ReferenceClock {
 			var out []client.ReferenceClock
@@ -241,6 +259,23 @@ func c01Check(r *ev.Run, id string, sc *c01Scenario) {
 			}
 		}
 		return
+	}
+	if sc.DriftPerSec > 0 {
+		seen := false
+		for _, e := range evs {
+			if e.Kind != "drift" {
+				continue
+			}
+			seen = true
+			if diff := e.Val - sc.DriftOfI; diff > 1 || diff < -1 {
+				r.Violation("sync.Run|wrong-value:the system clock's drift allowance, from which both bounds are taken, is not configured drift x sync interval", id,
+					w(map[string]any{"drift_of_interval_from_clock": e.Val, "configured_drift_x_interval": sc.DriftOfI}))
+				return
+			}
+		}
+		if seen {
+			r.Class("bounds from the real clocks.SystemClock drift allowance" + map[bool]string{true: " (sub-second interval)", false: ""}[sc.Interval < 1e9])
+		}
 	}
 	if pnc != "" {
 		r.Violation("sync.Run|panic|admissible configuration", id, w(nil))
@@ -423,6 +458,14 @@ func c01Gen(rng *rand.Rand, bad int) *c01Scenario {
 	maxD := int64(float64(int64(1)<<61) / sc.PeerImpact)
 	sc.DriftOfI = 1 + rng.Int64N(min(maxD, []int64{10, 1e3, 1e6, 1e9, maxD}[rng.IntN(5)]))
 	sc.Rounds = 3 + rng.IntN(12)
+	if bad == 0 && rng.IntN(4) == 0 {
+		// drift allowance of the real system clock: configured drift per second x interval,
+		// chosen so that the product is a whole number of nanoseconds >= 10
+		sc.DriftPerSec = []int64{1000, 20000, 100000, 1000000, 1000 * (1 + rng.Int64N(500))}[rng.IntN(5)]
+		sc.Interval = []int64{1e7, 1e8, 25e7, 5e8, 75e7, 1e9, 15e8, 2e9, 64e9, 1e7 * (1 + rng.Int64N(300))}[rng.IntN(10)]
+		sc.Timeout = []int64{0, sc.Interval / 2, rng.Int64N(sc.Interval/2 + 1)}[rng.IntN(3)]
+		sc.DriftOfI = new(big.Int).Div(new(big.Int).Mul(big.NewInt(sc.DriftPerSec), big.NewInt(sc.Interval)), big.NewInt(1e9)).Int64()
+	}
 	switch bad {
 	case 1:
 		sc.RefImpact = []float64{1, 0.5, 0, -3}[rng.IntN(4)]
@@ -439,7 +482,7 @@ func c01Gen(rng *rand.Rand, bad int) *c01Scenario {
 		sc.Timeout = 0
 		sc.Bad = "non-positive interval"
 	case 5:
-		sc.Timeout = sc.Interval/2 + 1 + rng.Int64N(sc.Interval)
+		sc.Timeout = []int64{sc.Interval/2 + 1, sc.Interval/2 + 1 + rng.Int64N(sc.Interval), sc.Interval, 1 << 62, 1<<62 + rng.Int64N(1<<61), 5e18, math.MaxInt64}[rng.IntN(7)]
 		sc.Bad = "timeout above half the interval"
 	}
 	refMax := int64(sc.RefImpact * float64(sc.DriftOfI))
